@@ -85,6 +85,9 @@ def stopStep (A : Arith) (u : Unit) (line : String) : Unit × String :=
   | ["evalstime", me, ne, st, mt, now] =>
     (u, b2d (Stop.evalstime A { blank with maxeval := int me, nevals := int ne, start := hexOr st, maxtime := hexOr mt } (hexOr now)))
   | ["forced", k] => (u, b2d (Stop.forced { blank with forceStop := int k }))
+  | ["cls", x] =>      -- nlopt_isinf, nlopt_isfinite, nlopt_istiny, nlopt_isnan (as 0/1)
+    let v := hexOr x
+    (u, s!"{b2d v.isInf} {b2d v.isFinite} {b2d v.isTiny} {b2d v.isNaN}")
   | ["ftol", r, a, f, o] => (u, b2d (Stop.ftol A { blank with ftolRel := hexOr r, ftolAbs := hexOr a } (hexOr f) (hexOr o)))
   | ["f", mm, r, a, f, o] =>
     (u, b2d (Stop.f A { blank with minfMax := hexOr mm, ftolRel := hexOr r, ftolAbs := hexOr a } (hexOr f) (hexOr o)))
